@@ -263,7 +263,7 @@ impl Prop for C05 {
                 Ok(crate::obs::Res::Ok { value, unit, .. }) => match units::si_of(&value, &unit, false) {
                     Ok(si) if value == want && si.value == want && si.dim == tables::dim_add(&tables::DIM0, &u.dim, p as i32) => fw::pass(true, fw::hash_str(&want.to_string())),
                     Ok(si) => fw::fail(format!("base-expansion:{}", u.names[0]), format!("{q}: `{name}` is {} [{}], so the result must be {want}; got {value} ({})", units::scale_of(u), tables::dim_text(&u.dim), si.short())),
-                    Err(e) => fw::fail("unit-table", format!("{q}: {e}")),
+                    Err(e) => crate::units::table_verdict(format!("{q}: {e}")),
                 },
                 Ok(crate::obs::Res::Err { msg, .. }) => fw::fail(format!("base-expansion-refused:{}", u.names[0]), format!("{q}: `{name}` has dimensions [{}] (power {p}) but the conversion to base units is refused: {msg}", tables::dim_text(&u.dim))),
                 Err(why) => fw::fail("results:base-expansion", format!("{q}: {why}")),
@@ -305,7 +305,7 @@ impl C05 {
     fn judge_word(&self, w: &str, bare: Option<&'static tables::UnitDef>, value: &BigRational, parts: &UnitParts, text: &str) -> Verdict {
         let got = match meaning_of_reading(value, parts) {
             Ok(m) => m,
-            Err(e) => return fw::fail("unit-table", format!("`{w}` read as [{text}]: {e}")),
+            Err(e) => return crate::units::table_verdict(format!("`{w}` read as [{text}]: {e}")),
         };
         let obs_hash = fw::hash_str(&format!("{}|{:?}", got.scale, got.dim));
         if let Some(u) = bare {
@@ -336,11 +336,17 @@ impl C05 {
         }
         // a reading under the SI prefixes of 2022 (ronna, quetta, ronto, quecto) is a valid reading too:
         // the tool does not know them today, a build that learns them keeps the statement
-        if units::readings_2022(w).iter().any(|r| {
+        let ext = units::readings_2022(w);
+        if ext.iter().any(|r| {
             let m = units::reading_meaning(r);
             m.scale == got.scale && m.dim == got.dim
         }) {
             return fw::pass(true, obs_hash);
+        }
+        // a word the harness's vocabulary cannot segment at all (`foot`, `kn`, `d` for the day in a
+        // build that learnt them): whether its meaning is the standard one cannot be judged here
+        if rs.is_empty() && ext.is_empty() {
+            return Verdict::DontCare("the word is outside the harness's vocabulary");
         }
         // Known root cause class: the generated logos lexer, after failing to
         // complete a longer token, returns a shorter one but resumes further
@@ -419,7 +425,7 @@ fn check_expr(env: &mut Env, e: &str) -> Verdict {
             let mut h = 0u64;
             for (value, parts, text) in &accepted {
                 match meaning_of_reading(value, parts) {
-                    Err(er) => return fw::fail("unit-table", format!("`{e}` read as [{text}]: {er}")),
+                    Err(er) => return crate::units::table_verdict(format!("`{e}` read as [{text}]: {er}")),
                     Ok(got) => {
                         if got.scale != want.scale || got.dim != want.dim {
                             return fw::fail(
